@@ -13,7 +13,11 @@ template <class E> Conf<E> randomConf(vh::Rng& r, uint64_t seed, long maxN, bool
     using Real = typename E::Cfg::RealType;
     Conf<E> c;
     c.seed = seed;
-    const long H = r.range(minH, maxHeightFor(D));
+    // mostly shallow trees (many particles per level); sometimes a deep sparse one: heights up to the largest whose indices fit 63 bits
+    // (the configuration object shifts an int by height-1, hence <= 31), few particles, so that every level has few cells
+    const bool deep = r.coin(0.06);
+    const long H = deep ? r.range(maxHeightFor(D) + 1, tbx::deepHeightFor<Real>(D)) : r.range(minH, maxHeightFor(D));
+    if (deep) maxN = std::min<long>(maxN, 40);
     c.geo = tbx::genGeo<Real, D>(r, H, cubic);
     const typename E::Cfg cfg(H, c.geo.width, c.geo.center);
     const int dist = int(r.below(tbx::D_NB));
@@ -29,6 +33,7 @@ template <class E> Conf<E> randomConf(vh::Rng& r, uint64_t seed, long maxN, bool
     if (tbx::forcedBlockSize()) c.blockSize = tbx::forcedBlockSize();
     c.oneGroupPerParent = r.coin(0.5);
     c.upper = E::Space::IsPeriodic ? 1 : (r.coin(0.7) ? 2 : long(r.below(2)));
+    c.rebuildFirst = r.coin(0.12);
     return c;
 }
 
